@@ -2,6 +2,7 @@ import ComposeVerif.Model.Dotenv
 import ComposeVerif.Spec.Dotenv
 import ComposeVerif.Lemmas.Dotenv
 import ComposeVerif.Lemmas.DotenvMore
+import ComposeVerif.Lemmas.DotenvR4
 import ComposeVerif.Neg.C18
 import ComposeVerif.Gen.Dotenv
 /-!
@@ -211,6 +212,83 @@ theorem get_mergeInto (env m : Map) (k : Str) (h : (env.map Prod.fst).Nodup) :
 example : fromFiles (fun k => if k = ['A'] then some ['e'] else none)
     [['A', '=', '1', '\n', 'B', '=', '$', 'A', '\n'], ['\uFEFF', 'C', '=', '$', 'B', '\n', 'B', '=', '2']] [] =
     .ok [(['A'], ['1']), (['B'], ['2']), (['C'], ['e'])] := by decide
+
+
+/-! ## round 4: arbitrary inputs, several arbitrary files, escapes composed with interpolation -/
+
+/-- whatever the input, a successful parse returns a map with distinct keys (a faithful Go map) -/
+theorem parse_keys_nodup (src : Str) (lookup : Env) (r : Map) (h : parse src lookup = .ok r) : (r.map Prod.fst).Nodup :=
+  parse_keys_nodup_lemma src lookup r h
+
+/-- `GetEnvFromFile` on ANY file contents (well-formed or not): the files are read left to right and the only
+    state carried from one file to the next is the accumulated map -/
+theorem fromFiles_append (cur : Env) (a b : List Str) (m : Map) :
+    fromFiles cur (a ++ b) m = (fromFiles cur a m).andThen (fun m' => fromFiles cur b m') :=
+  fromFiles_append_lemma cur a b m
+
+/-- … a file that parses (under "caller's environment first, earlier files second") contributes exactly its
+    variables: afterwards `get` returns the file's value where it has one and the accumulated value otherwise -/
+theorem fromFiles_step_ok (cur : Env) (a : List Str) (f : Str) (m m' env : Map)
+    (ha : fromFiles cur a m = .ok m') (hf : parse (stripBOM f) (envOf cur m') = .ok env) :
+    fromFiles cur (a ++ [f]) m = .ok (mergeInto m' env) ∧
+    ∀ k, get (mergeInto m' env) k = (get env k).or (get m' k) := by
+  refine ⟨?_, fun k => get_mergeInto_lemma env m' k (parse_keys_nodup_lemma _ _ env hf)⟩
+  rw [fromFiles_append_lemma, ha]
+  exact fromFiles_single_ok cur f m' env hf
+
+/-- … the first file that does not parse stops the fold: its error is returned together with the map
+    accumulated from the files before it, whatever follows -/
+theorem fromFiles_step_err (cur : Env) (a b : List Str) (f : Str) (m m' pm : Map) (e : PErr)
+    (ha : fromFiles cur a m = .ok m') (hf : parse (stripBOM f) (envOf cur m') = .err e pm) :
+    fromFiles cur (a ++ f :: b) m = .err e m' := by
+  rw [fromFiles_append_lemma, ha]
+  show fromFiles cur (f :: b) m' = .err e m'
+  rw [fromFiles, hf]
+
+/-- … and the accumulated map keeps distinct keys -/
+theorem fromFiles_keys_nodup (cur : Env) (fs : List Str) (m r : Map) (h : fromFiles cur fs m = .ok r)
+    (hm : (m.map Prod.fst).Nodup) : (r.map Prod.fst).Nodup :=
+  fromFiles_keys_nodup_lemma cur fs m r h hm
+
+example : fromFiles (fun _ => none) [['A', '=', '1', '\n'], ['B', '=', '"', 'x'], ['C', '=', '3']] [] =
+    .err .unterminated [(['A'], ['1'])] := by decide
+
+/-- any text can be written between double quotes: `dqEncode` writes the quote as `\\"`, the backslash as
+    `\\\\` and leaves everything else (in particular `$`) alone; escape processing gives the text back -/
+theorem expandEscapes_encoded (u : Str) : expandEscapes (rawItems '"' (dqEncode u)) = u ∧ (dqEncode u).all (QItem.wf '"') = true :=
+  ⟨expandEscapes_dqEncode u, dqEncode_wf u⟩
+
+/-- escapes composed with interpolation: the double-quoted encoding of the concrete syntax of ANY well-formed
+    template (quotes, backslashes and line feeds included) means what the interpolation grammar says -/
+theorem value_dq_encoded (env : Env) (t : List Seg) (h : Template.WF t = true) :
+    (Value.dq (dqEncode (renderL t))).eval env = evalOut env t :=
+  value_dq_encoded_lemma env t h
+
+/-- the dotenv escape `\\$` is the template escape `$$`: a literal dollar sign, never a substitution -/
+theorem value_dq_dollar (env : Env) (t : List Seg) (h : Template.WF (Seg.esc :: t) = true) :
+    (Value.dq (QItem.esc '$' :: dqEncode (renderL t))).eval env = evalOut env (Seg.esc :: t) :=
+  value_dq_dollar_lemma env t h
+
+/-- **Refinement with escapes and interpolation.**  After ANY well-formed lines, `KEY="…"` whose body is the
+    `dqEncode`-ing of ANY well-formed template defines KEY as the template's grammar meaning, lookup first,
+    earlier lines second. -/
+theorem parse_render_interpolated_dq_escaped (lookup : Env) (ls : List Line) (hwf : WF ls = true)
+    (i : Str) (e : Option Str) (key w1 : Str) (sep : Sep) (w2 : Str) (t : List Seg) (tr : Str) (c : Option Str)
+    (ht : Template.WF t = true)
+    (hl : (Line.assign i e key w1 sep w2 (.dq (dqEncode (renderL t))) tr c).wf = true) :
+    parse (render (ls ++ [.assign i e key w1 sep w2 (.dq (dqEncode (renderL t))) tr c])) lookup =
+      (evalLines lookup ls).andThen
+        (fun m => assignOut (evalOut (envOf lookup m) t) (fun x => .ok (put m key x)) m) := by
+  rw [parse_render_snoc lookup ls _ hwf hl]
+  congr 1
+  funext m
+  rw [evalFrom_single_assign, value_dq_encoded_lemma _ t ht]
+
+/-- non-vacuity: `K="a\\"${A:-\\\\}"` -/
+example : Template.WF [.lit ['a', '"'], .op ['A'] .colonDash [.lit ['\\']]] = true ∧
+    (Line.assign [] none ['K'] [] .eq []
+      (.dq (dqEncode (renderL [.lit ['a', '"'], .op ['A'] .colonDash [.lit ['\\']]]))) [] none).wf = true := by
+  decide
 
 /-! ## malformed input is an error -/
 
